@@ -170,8 +170,9 @@ def place_variants(p):
 
 
 class Facts:
-    def __init__(self, facts_dir, tree_hash=None, config="default"):
+    def __init__(self, facts_dir, tree_hash=None, config="default", repo=None):
         self.dir = facts_dir
+        self.repo = repo or os.environ.get("UCG_REPO", "/repo")
         self.tree_hash = tree_hash
         self.config = config
         self.fns = {}
@@ -194,7 +195,7 @@ class Facts:
             for t in d["traits"]:
                 self.traits.append(t)
         # summaries of library combinators used by the path rules are written for this exact version
-        lock = os.path.join(os.environ.get("UCG_REPO", "/repo"), "Cargo.lock")
+        lock = os.path.join(self.repo, "Cargo.lock")
         self.abortable_parser_version = None
         if os.path.exists(lock):
             m = re.search(r'name = "abortable_parser"\nversion = "([^"]+)"', open(lock).read())
